@@ -791,7 +791,7 @@ theorem stepP (hU : UOkP env U) {s s' : State} {P : Nat} {dl : List Header} (hi 
     stored header is accepted by the active client if it extends the head, or if (after this update's prune pass) its
     stored ancestry meets the head's stored ancestry (`LiveC`: the branch forks at or above the prune line). -/
 theorem never_wedged_partial (hU : UOkP env U) {s : State} {P : Nat} {dl : List Header} (hi : InvP env U g0 s P dl) {now : Nat}
-    {p c : Header} (uc : U c) (sp : Stored env s p) (hv : ValidChild env s.chainId now p c) (hrev : c.rev = p.rev)
+    {p c : Header} (uc : U c) (sp : Stored env s p) (hv : ValidChild env s.chainId now p c)
     (hact : active s now = true)
     (hl : ∀ s1, pruneStep s now = .ok s1 → env.hash s.head = c.parentHash ∨ LiveC (store env s1 c) c) :
     ∃ s', updateClient .fixed env now s c = .ok s' ∧ s'.head = c := by
@@ -822,7 +822,7 @@ theorem never_wedged_partial (hU : UOkP env U) {s : State} {P : Nat} {dl : List 
   obtain ⟨s3, h3⟩ := h3
   refine ⟨{ s3 with head := c, cons := aset s3.cons c.number { time := c.time, root := c.root } }, ?_, rfl⟩
   unfold updateClient
-  simp only [hact, Bool.not_true, checkValidity_complete hpo hv (fun _ => hrev), hpr]
+  simp only [hact, Bool.not_true, checkValidity_complete hpo hv, hpr]
   simp only [Bool.false_eq_true, ↓reduceIte, h3]
 
 /-- the condition is also necessary: an update accepted through `RestrictChain` had `LiveC` -/
@@ -899,7 +899,7 @@ theorem init_invP (hU : UOkP env U) {g : Header} (ug : U g) (chainId trusting : 
   have hc := (init_inv hU.base ug chainId trusting).core
   refine ⟨hc, ?_, Nat.le_refl _, ?_, ⟨g, ?_, Or.inr rfl⟩, ?_, ?_⟩
   · intro k h hk
-    simp only [initState, initStateR, aget] at hk
+    simp only [initState, aget] at hk
     split at hk
     · cases hk; exact Nat.le_refl _
     · cases hk
@@ -907,14 +907,14 @@ theorem init_invP (hU : UOkP env U) {g : Header} (ug : U g) (chainId trusting : 
   · show walkCur _ (g.number - g.number) g = some g
     simp [walkCur]
   · intro k v hk
-    simp only [initState, initStateR, aget] at hk
+    simp only [initState, aget] at hk
     split at hk
     · rename_i e; omega
     · cases hk
   · intro k h hk _
-    simp only [initState, initStateR, aget] at hk
+    simp only [initState, aget] at hk
     split at hk
-    · cases hk; simp [initState, initStateR, aget]
+    · cases hk; simp [initState, aget]
     · cases hk
 
 theorem reachP_inv (hU : UOkP env U) {g : Header} (ug : U g) {chainId trusting : Nat} {s : State}
@@ -929,11 +929,11 @@ theorem reachP_inv (hU : UOkP env U) {g : Header} (ug : U g) {chainId trusting :
 /-- **never_wedged across pruning** over all histories (statement of `never_wedged_partial` on reachable states) -/
 theorem never_wedged_pruned (hU : UOkP env U) {g : Header} (ug : U g) {chainId trusting : Nat} {s : State}
     (hr : ReachP env U g chainId trusting s) {now : Nat} {p c : Header} (uc : U c) (sp : Stored env s p)
-    (hv : ValidChild env s.chainId now p c) (hrev : c.rev = p.rev) (hact : active s now = true)
+    (hv : ValidChild env s.chainId now p c) (hact : active s now = true)
     (hl : ∀ s1, pruneStep s now = .ok s1 → env.hash s.head = c.parentHash ∨ LiveC (store env s1 c) c) :
     ∃ s', updateClient .fixed env now s c = .ok s' ∧ s'.head = c := by
   obtain ⟨P, dl, hi⟩ := reachP_inv hU ug hr
-  exact never_wedged_partial hU hi uc sp hv hrev hact hl
+  exact never_wedged_partial hU hi uc sp hv hact hl
 
 /-- the prune pass itself never wedges the client -/
 theorem prune_total (hU : UOkP env U) {g : Header} (ug : U g) {chainId trusting : Nat} {s : State}
@@ -967,6 +967,33 @@ theorem World.get_set_same (w : World) (i : Bool) (s : State) : (w.set i s).get 
 theorem World.get_set_other (w : World) (i : Bool) (s : State) : (w.set i s).get (!i) = w.get (!i) := by
   cases i <;> simp [World.get, World.set]
 
+/-- the stateless stage adds nothing: `MsgUpdateClient.ValidateBasic ; UpdateClient` accepts exactly what `UpdateClient`
+    accepts (`checkValidity` runs the same `ValidateBasic` first) -/
+theorem msgUpdate_ok_iff {v : Variant} {env : Env} {now : Nat} {s s' : State} {h : Header} :
+    msgUpdate v env now s h = .ok s' ↔ updateClient v env now s h = .ok s' := by
+  unfold msgUpdate
+  by_cases hb : validateBasic h = true
+  · simp [hb]
+  · have hf : validateBasic h = false := by simpa using hb
+    simp only [hf, Bool.not_false, ↓reduceIte]
+    constructor
+    · intro h1; cases h1
+    · intro h1
+      exfalso
+      unfold updateClient at h1
+      split at h1
+      · cases h1
+      · have : checkValidity env s now h = .err "basic" := by simp [checkValidity, hf]
+        rw [this] at h1
+        cases h1
+
+/-- `beNat []  = 0`: an absent (empty) base fee / difficulty IS the value 0 -/
+theorem beNat_nil : beNat [] = 0 := rfl
+
+/-- leading zero bytes do not change the value -/
+theorem beNat_zero_cons (b : Bytes) : beNat (0 :: b) = beNat b := by
+  simp [beNat, List.foldl]
+
 /-- what an update of client `i` is: `updateClient` on that client's state -/
 theorem World.update_ok {v : Variant} {env : Env} {now : Nat} {w w' : World} {i : Bool} {h : Header}
     (hu : World.update v env now w i h = .ok w') :
@@ -976,10 +1003,10 @@ theorem World.update_ok {v : Variant} {env : Env} {now : Nat} {w w' : World} {i 
   | none => simp [hg] at hu
   | some s =>
     simp only [hg] at hu
-    cases hc : updateClient v env now s h with
+    cases hc : msgUpdate v env now s h with
     | err e => simp [hc] at hu
     | panic e => simp [hc] at hu
-    | ok s' => simp only [hc, Outcome.ok.injEq] at hu; exact ⟨s, s', rfl, hc, hu.symm⟩
+    | ok s' => simp only [hc, Outcome.ok.injEq] at hu; exact ⟨s, s', rfl, msgUpdate_ok_iff.mp hc, hu.symm⟩
 
 /-- **frame**: an update of one client leaves the other client's store exactly as it was (verdicts on one client are
     independent of the other's history) -/
@@ -1108,7 +1135,7 @@ theorem never_wedged_literal_false :
     have h0 : (wrunT .fixed pInit pHist).map (·.chainId) = some 4 := by decide
     rw [hs] at h0; simpa using h0
   have hv : ValidChild wenv s.chainId 1065 pB1 pB2 := by
-    refine ⟨by decide, by decide, by decide, by decide, by decide, by decide, by decide, ?_⟩
+    refine ⟨by decide, by decide, by decide, by decide, by decide, by decide, by decide, by decide, ?_⟩
     intro hc; exact absurd e hc
   obtain ⟨s', h5⟩ := h s 1065 pB1 pB2 hr (by decide) h1 hv h2
   rw [h4] at h5; cases h5
